@@ -1,5 +1,6 @@
 # Copyright 2024, Battelle Energy Alliance, LLC All Rights Reserved.
 import montepy
+import numbers
 from montepy.numbered_object_collection import NumberedObjectCollection
 from montepy.errors import *
 import warnings
@@ -56,6 +57,11 @@ class Cells(NumberedObjectCollection):
         :param vacuum_cells: the cells that are the vacuum boundary with 0 importance
         :type vacuum_cells: list
         """
+        if not isinstance(importance, numbers.Number):
+            raise TypeError("importance must be a number")
+        importance = float(importance)
+        if importance < 0.0:
+            raise ValueError("importance must be ≥ 0.0")
         if not isinstance(vacuum_cells, (list, tuple, set)):
             raise TypeError("vacuum_cells must be a list or set")
         cells_buff = set()
@@ -67,11 +73,12 @@ class Cells(NumberedObjectCollection):
             else:
                 cells_buff.add(cell)
         vacuum_cells = cells_buff
+        # everything has been checked: from here on nothing is rejected any more
         for cell in self:
             if cell not in vacuum_cells:
-                cell.importance.all = importance
+                cell.importance._set_all(importance)
         for cell in vacuum_cells:
-            cell.importance.all = 0.0
+            cell.importance._set_all(0.0)
 
     @property
     def allow_mcnp_volume_calc(self):
